@@ -26,10 +26,12 @@ def leak_case(c):
     pgs = [None, None, None]; pgs[axis] = 1
     others = tuple(a for a in range(3) if a != axis)
     prof = fdtdx.GaussianPulseProfile(spectral_width=fdtdx.WaveCharacter(wavelength=4 * wl), center_wave=wc) if pulsed else fdtdx.SingleFrequencyProfile()
+    # the polarisation may be declared through E or through H (the other one is derived from the propagation direction)
+    polkw = {"fixed_H_polarization_vector": tuple(pol)} if c.get("hgiven") else {"fixed_E_polarization_vector": tuple(pol)}
     if gauss is None:
-        src = fdtdx.UniformPlaneSource(name="src", partial_grid_shape=tuple(pgs), direction=direction, wave_character=wc, fixed_E_polarization_vector=tuple(pol), temporal_profile=prof)
+        src = fdtdx.UniformPlaneSource(name="src", partial_grid_shape=tuple(pgs), direction=direction, wave_character=wc, temporal_profile=prof, **polkw)
     else:
-        src = fdtdx.GaussianPlaneSource(name="src", partial_grid_shape=tuple(pgs), direction=direction, wave_character=wc, fixed_E_polarization_vector=tuple(pol), radius=gauss * wl, temporal_profile=prof)
+        src = fdtdx.GaussianPlaneSource(name="src", partial_grid_shape=tuple(pgs), direction=direction, wave_character=wc, radius=gauss * wl, temporal_profile=prof, **polkw)
     cons += [src.same_size(vol, axes=others), src.place_at_center(vol, axes=others), src.set_grid_coordinates(axes=(axis,), sides=("-",), coordinates=(L // 2,))]
     dets = []
     for nm, pos in (("front", L // 2 + (25 if direction == "+" else -25)), ("back", L // 2 - (25 if direction == "+" else -25))):
